@@ -41,6 +41,16 @@ def emit(world, heap, stream, text, kind=0, msg=None):
     append(world, heap, '$out_msg', msg if msg is not None else mk_none())
 
 
+def emit_kind(world, heap, kind, msg):
+    """an entry of the given kind / owner with unspecified text and stream (used by effect-style contracts)"""
+    emit(world, heap, fresh(world.parse_type(CELLS['$out_stream']).elem, 'stream'), fresh(STR, 'text'), kind, msg)
+    k = z3.simplify(kind.term) if isinstance(kind, SV) else z3.IntVal(kind)
+    if z3.is_int_value(k) and k.as_long() == 1:
+        n = heap.read_global('$out_kind', world.parse_type(CELLS['$out_kind'])).t[0]
+        append(world, heap, '$shown', msg)
+        append(world, heap, '$shown_at', mk_int(n - 1))
+
+
 def retag_last(world, heap, kind, msg):
     """the entry just written is the line of message `msg`"""
     n = None
@@ -110,3 +120,7 @@ def wellformed(world, heap):
         for n in names[1:]:
             out.append(heap.read_global(n, world.parse_type(CELLS[n])).t[0] == first.t[0])
     return out
+
+
+EXACT_CELLS = ['$out_kind', '$out_msg', '$shown', '$shown_at', '$ui']      # compared entry-wise against a contract's effect code
+LENGTH_CELLS = ['$out_text', '$out_stream']                                   # only their length is compared
